@@ -13,7 +13,7 @@ from cfg import const_int
 
 class AbsInt:
     def __init__(self, body, cfg, tracer, edge_labels=None, events=None, on_assign=None, max_states=400000,
-                 reset_at=(), reset_prefixes=(), reset_counters=(), edge_filter=None, on_call=None):
+                 reset_at=(), reset_prefixes=(), reset_counters=(), edge_filter=None, on_call=None, agg_value=None):
         self.body = body
         self.cfg = cfg
         self.tr = tracer
@@ -23,6 +23,7 @@ class AbsInt:
         self.max_states = max_states
         self.edge_filter = edge_filter
         self.on_call = on_call
+        self.agg_value = agg_value
         self.reset_at = set(reset_at)
         self.reset_prefixes = tuple(reset_prefixes)
         self.reset_counters = set(reset_counters)
@@ -99,6 +100,8 @@ class AbsInt:
                         store.pop(l, None)
                     continue
                 v = self._eval_rvalue(st["rv"], store) if l not in self.untracked else None
+                if v is None and self.agg_value is not None and "agg" in st["rv"]:
+                    v = self.agg_value(bb, st["rv"], store)        # client-defined abstract value of an aggregate (travels with moves)
                 if self.on_assign is not None:
                     extra = self.on_assign(bb, i, st, store, flags, counters, extra)
                 if v is None:
@@ -165,6 +168,8 @@ class AbsInt:
                         store.pop(l, None)
                     continue
                 v = self._eval_rvalue(st["rv"], store) if l not in self.untracked else None
+                if v is None and self.agg_value is not None and "agg" in st["rv"]:
+                    v = self.agg_value(bb, st["rv"], store)
                 if v is None:
                     store.pop(l, None)
                 else:
